@@ -6,7 +6,7 @@ export GOWORK=off GOFLAGS=-mod=mod GOPROXY=off GOSUMDB=off GOTOOLCHAIN=local
 mkdir -p .bin .work evidence replays
 (cd extract && go build -o ../.bin/agdextract .)
 mkdir -p lean/Agd/Gen
-./.bin/agdextract -repo "${VERIF_REPO:-/repo}" -out lean/Agd/Gen
+./.bin/agdextract -repo "${VERIF_REPO:-/repo}" -out lean/Agd/Gen -spec extract/facts
 (cd lean && lake build Agd agdmodel)
 cat /repo/go.sum /repo/internal/dnsserver/go.sum | sort -u > harness/go.sum
 for d in harness/cmd/*/; do
